@@ -30,9 +30,11 @@ import (
 )
 
 type exprSite struct {
-	name   string // Lean def
-	fn     string // "Recv.name" or "name"
-	kind   string // "cond": if-condition containing anchor; "assign": RHS of `anchor = …` / `anchor := …`; "opassign": the new value `anchor + …` / `anchor - …` of `anchor += …` / `anchor -= …`; "arg": first argument of the call `anchor(…)`; "return": the single result of a `return` whose text contains anchor
+	name string // Lean def
+	fn   string // "Recv.name" or "name"
+	kind string // "cond": if-condition containing anchor; "assign": RHS of `anchor = …` / `anchor := …`; "arg": first argument of the call `anchor(…)`;
+	// "ret" / "return": the single result of a `return` whose text contains anchor; "incr": RHS of `anchor += …`;
+	// "opassign": the NEW value `anchor + …` / `anchor - …` of `anchor += …` / `anchor -= …` (the operator is part of the def)
 	anchor string
 	index  int // which of the matches (source order)
 	count  int // how many matches the function must have
@@ -80,6 +82,39 @@ var exprSites = []exprSite{
 	// buffered amount release
 	{"release_underflows", "Stream.onBufferReleased", "cond", "uint64(nBytesReleased)", 0, 1},
 	{"release_crossesLow", "Stream.onBufferReleased", "cond", "s.onBufferedAmountLow", 0, 1},
+	// graceful shutdown (C08): the state gates and decisions the model Sd re-types (Props/C08: C08_sites_match_code)
+	{"sd_shutdownRefused", "Association.Shutdown", "cond", "state", 0, 1},
+	{"sd_writeRefused", "Association.sendPayloadData", "cond", "state", 0, 2},
+	{"sd_sackIgnored", "Association.handleSack", "cond", "state", 0, 1},
+	{"sd_shutdownInAckSent", "Association.handleShutdown", "cond", "state", 0, 5},
+	{"sd_shutdownInSent", "Association.handleShutdown", "cond", "state", 1, 5},
+	{"sd_shutdownNotHandled", "Association.handleShutdown", "cond", "state", 2, 5},
+	{"sd_shutdownAckHandled", "Association.handleShutdownAck", "cond", "state", 0, 1},
+	{"sd_shutdownCompleteHandled", "Association.handleShutdownComplete", "cond", "state", 0, 1},
+	{"sd_prioShutdownAck", "Association.gatherOutboundPriorityPackets", "cond", "a.willSendShutdown", 1, 3},
+	{"sd_prioShutdown", "Association.gatherOutboundPriorityPackets", "cond", "a.willSendShutdown", 2, 3},
+	{"sd_dataGap", "Association.handleData", "assign", "gapDetected", 0, 1},
+	{"sd_dataSackNow", "Association.handleData", "assign", "sackNow", 0, 2},
+	// receive half: advertised credit (getMyReceiverWindowCredit), admission at a full buffer (acceptPayloadData),
+	// gap / immediate-ack decisions (handleData, handlePeerLastTSNAndAcknowledgement), stale FORWARD-TSN, deferred reset
+	{"rwnd_addStream", "Association.getMyReceiverWindowCredit", "incr", "bytesQueued", 0, 1},
+	{"rwnd_exhausted", "Association.getMyReceiverWindowCredit", "cond", "bytesQueued", 0, 1},
+	{"rwnd_credit", "Association.getMyReceiverWindowCredit", "ret", "bytesQueued", 0, 1},
+	{"accept_hasCredit", "Association.acceptPayloadData", "cond", "a.getMyReceiverWindowCredit()", 0, 1},
+	{"accept_dropAtFullBuffer", "Association.acceptPayloadData", "cond", "lastTSN", 0, 1},
+	{"data_canHandle", "Association.canHandleData", "ret", "isDataReceiveState", 0, 1},
+	{"data_wrongKind", "Association.handleData", "cond", "a.useInterleaving", 0, 1},
+	{"data_expectedTSN", "Association.handleData", "assign", "expectedTSN", 0, 1},
+	{"data_gapDetected", "Association.handleData", "assign", "gapDetected", 0, 1},
+	{"data_sackNow", "Association.handleData", "assign", "sackNow", 0, 2},
+	{"ack_hasPacketLoss", "Association.handlePeerLastTSNAndAcknowledgement", "assign", "hasPacketLoss", 0, 1},
+	{"ack_immediate", "Association.handlePeerLastTSNAndAcknowledgement", "cond", "sackImmediately", 0, 1},
+	{"ack_mayDelay", "Association.handlePeerLastTSNAndAcknowledgement", "cond", "ackModeAlwaysDelay", 0, 1},
+	{"ack_wasIdle", "Association.handlePeerLastTSNAndAcknowledgement", "cond", "ackStateIdle", 0, 1},
+	{"fwd_stale", "Association.handleForwardTSN", "cond", "sna32LTE", 0, 1},
+	{"ifwd_stale", "Association.handleIForwardTSN", "cond", "sna32LTE", 0, 1},
+	{"reset_due", "Association.resetStreamsIfAny", "cond", "resetRequest.senderLastTSN", 0, 1},
+	{"sack_pending", "Association.gatherOutboundSackPackets", "cond", "a.ackState", 0, 1},
 
 	// ---- RACK / PTO / TLR (Model/Rack.lean) ----
 	// RTT sampling and "newest delivered" bookkeeping of processSelectiveAck (cumulative loop = 0, gap loop = 1)
@@ -300,6 +335,9 @@ func (c *ctx) findSite(s exprSite) (ast.Expr, string) {
 				(x.Tok == token.ASSIGN || x.Tok == token.DEFINE) {
 				found = append(found, x.Rhs[0])
 			}
+			if s.kind == "incr" && len(x.Lhs) == 1 && len(x.Rhs) == 1 && exprText(x.Lhs[0]) == s.anchor && x.Tok == token.ADD_ASSIGN {
+				found = append(found, x.Rhs[0])
+			}
 			if s.kind == "opassign" && len(x.Lhs) == 1 && len(x.Rhs) == 1 && exprText(x.Lhs[0]) == s.anchor &&
 				(x.Tok == token.ADD_ASSIGN || x.Tok == token.SUB_ASSIGN) {
 				// the NEW value `lhs op rhs`, so that the operator is part of the def
@@ -314,7 +352,7 @@ func (c *ctx) findSite(s exprSite) (ast.Expr, string) {
 				found = append(found, bin)
 			}
 		case *ast.ReturnStmt:
-			if s.kind == "return" && len(x.Results) == 1 && strings.Contains(exprText(x.Results[0]), s.anchor) {
+			if (s.kind == "ret" || s.kind == "return") && len(x.Results) == 1 && strings.Contains(exprText(x.Results[0]), s.anchor) {
 				found = append(found, x.Results[0])
 			}
 		case *ast.CallExpr:
